@@ -723,10 +723,18 @@ class ScaledArrayView(ArrayView):
     def _remove_scale(self, value):
         return np.round((value - self.offset) / self.scale)
 
+    def _is_multi_element(self) -> bool:
+        return self.array.ndim > 1
+
     def max(self, *args, **kwargs):
+        if self._is_multi_element():
+            # each element has its own scale and offset
+            return np.array(self).max(*args, **kwargs)
         return self._apply_scale(self.array.max(*args, **kwargs))
 
     def min(self, *args, **kwargs):
+        if self._is_multi_element():
+            return np.array(self).min(*args, **kwargs)
         return self._apply_scale(self.array.min(*args, **kwargs))
 
     @property
@@ -767,18 +775,22 @@ class ScaledArrayView(ArrayView):
             return self.__class__(self.array[item], self.scale, self.offset)
         else:
             sliced_array = self.array[item]
-            if len(item) == 2:
-                if item[1] is Ellipsis:
-                    # item is (index, ...), it queries for all the dimensions
-                    # of a point or set of point, so we don't slice the scales/offsets
-                    return self.__class__(sliced_array, self.scale, self.offset)
-                elif item[0] is Ellipsis:
-                    # item is something like (..., index)
-                    # it queries for one dimension or set of dimension
-                    # for all the points, so we need to slice the scales/offsets
-                    return self.__class__(
-                        sliced_array, self.scale[item[1]], self.offset[item[1]]
-                    )
+            if (
+                isinstance(item, tuple)
+                and len(item) == 2
+                and self._is_multi_element()
+                and item[1] is not Ellipsis
+            ):
+                # item is something like (..., index) or (index, index):
+                # the second index selects one element or a set of elements
+                # of the points, so we need to slice the scales/offsets as well
+                scale, offset = self.scale[item[1]], self.offset[item[1]]
+                if np.ndim(sliced_array) == 0:
+                    return (sliced_array * scale) + offset
+                return self.__class__(sliced_array, scale, offset)
+            # item is (index, ...), a mask or a list of indices: it queries for
+            # all the elements of a point or set of point,
+            # so we don't slice the scales/offsets
             return self.__class__(sliced_array, self.scale, self.offset)
 
     def __setitem__(self, key, value):
@@ -797,7 +809,18 @@ class ScaledArrayView(ArrayView):
         # the check is done on the values that will actually be stored,
         # checking in the scaled domain is unsound at the edges of the range
         with np.errstate(over="ignore", invalid="ignore"):
-            unscaled = self._remove_scale(value)
+            if (
+                isinstance(key, tuple)
+                and len(key) == 2
+                and self._is_multi_element()
+                and key[1] is not Ellipsis
+            ):
+                # only some elements of the points are assigned
+                unscaled = np.round(
+                    (value - self.offset[key[1]]) / self.scale[key[1]]
+                )
+            else:
+                unscaled = self._remove_scale(value)
         if not np.all((unscaled >= info.min) & (unscaled <= info.max)):
             raise OverflowError(
                 "Values given do not fit after applying offset and scale"
